@@ -9,6 +9,11 @@ for prop in $props; do
   for d in /verif/selftest/$prop/*.diff; do
     name=$(basename $d .diff)
     git -C $WT checkout -- . >/dev/null 2>&1
+    # the repairs of F24 / F14-executing (uncommitted in /repo until the lead commits them) belong to the baseline
+    for fx in /verif/selftest/C09/fix-F24.diff /verif/selftest/C08/fix-F14-executing.diff; do
+      git -C $WT apply --check $fx 2>/dev/null && git -C $WT apply $fx
+    done
+    case $name in fix-*|revert-fix-*) continue;; esac
     if ! git -C $WT apply $d; then echo "$prop $name: PATCH DOES NOT APPLY"; continue; fi
     out=/verif/.work/selftest-$prop-$name.out
     ( cd /verif && VERIF_REPO=$WT timeout 1500 python3 tools/check.py $prop --tier quick > $out 2>&1 ); rc=$?
